@@ -182,6 +182,9 @@ func analyse(sc Scenario, out *outcome, drv *lib.Driver) *caseResult {
 		case eEpoch:
 			epoch = e.Epoch
 		case eRestart:
+			if len(curRun) > 0 {
+				cr.hits["shutdown:restart-with-unannounced-reverts"]++
+			}
 			curRun = nil // currReorg is not persisted: a new instance does not announce earlier reverts
 			cr.hits["shutdown:restart"]++
 		case eServed:
@@ -211,6 +214,9 @@ func analyse(sc Scenario, out *outcome, drv *lib.Driver) *caseResult {
 			curRun = nil
 		case eReverted:
 			cr.hits["commit:reverted"]++
+			if e.Num == 0 {
+				cr.hits["commit:reverted-genesis"]++
+			}
 			cur := out.chains[epoch]
 			if int(e.Num) < len(cur) && cur[e.Num].Block.Hash.Equal(&e.Hash) && !wrongNumAnswered(out.log, id, e.Num, id.of(&e.Hash)) {
 				if staleSuccessor(out.log[:li], e) {
@@ -298,6 +304,9 @@ func analyse(sc Scenario, out *outcome, drv *lib.Driver) *caseResult {
 	switch {
 	case same:
 		cr.hits["end:converged"]++
+		if len(final) == 1 && sc.Prestore >= 2 {
+			cr.hits["end:converged-onto-a-different-genesis-only(remoteHeight 0)"]++
+		}
 		for _, b := range final {
 			if why := sameBlock(out.final, b); why != "" {
 				viol("final-chain-content-differs-from-source", why)
